@@ -15,6 +15,9 @@ using namespace FEAT::Adjacency;
 template Graph::Graph(RenderType, const Graph&);
 template Graph::Graph(RenderType, const Graph&, const Graph&);
 
+// the composite adjactor's image iterator (constructors, increment, dereference)
+template class FEAT::Adjacency::CompositeAdjactor<Graph, Graph>;
+
 // in-situ and out-of-place permutation application
 template void Permutation::apply<double>(double*, bool) const;
 template void Permutation::apply<Index>(Index*, bool) const;
